@@ -43,7 +43,7 @@ const LOCS: &[&str] = &["tl", "t", "tr", "r", "br", "b", "bl", "l", "c"];
 
 fn abs_node(rng: &mut Rng, id: &str) -> (String, String) {
     let (x, y, w, h) = (n(rng, -30, 60), n(rng, -30, 60), n(rng, 2, 30), n(rng, 2, 30));
-    match rng.below(9) {
+    match rng.below(10) {
         0 => ("abs-rect-long".into(), format!("<rect id=\"{id}\" x=\"{x}\" y=\"{y}\" width=\"{w}\" height=\"{h}\"/>")),
         1 => ("abs-rect-short".into(), format!("<rect id=\"{id}\" xy=\"{x} {y}\" wh=\"{w} {h}\"/>")),
         2 => ("abs-rect-cxy".into(), format!("<rect id=\"{id}\" cxy=\"{x} {y}\" wh=\"{w}\"/>")),
@@ -63,9 +63,14 @@ fn abs_node(rng: &mut Rng, id: &str) -> (String, String) {
                 1 + h / 3
             ),
         ),
-        _ => (
+        8 => (
             "abs-rect-text".into(),
             format!("<rect id=\"{id}\" xy=\"{x} {y}\" wh=\"{w} {h}\" text=\"{id}\"/>"),
+        ),
+        _ => (
+            // ids generated inside a loop: {id}q0, {id}q1 (callers refer to {id}q1)
+            "abs-loop-ids".into(),
+            format!("<loop count=\"2\" loop-var=\"q\"><rect id=\"{id}q$q\" x=\"{{{{{x} + $q * 40}}}}\" y=\"{y}\" width=\"{w}\" height=\"{h}\"/></loop>"),
         ),
     }
 }
@@ -284,7 +289,7 @@ pub fn orders_of(scn: &Scn) -> (Vec<Vec<usize>>, bool) {
 }
 
 pub fn render_doc(scn: &Scn, order: &[usize]) -> String {
-    let mut s = String::from("<svg>\n  <specs><rect id=\"tpl\" wh=\"3 2\"/></specs>\n");
+    let mut s = String::from("<svg>\n  <specs><rect id=\"tpl\" wh=\"3 2\"/></specs><var k=\"7\"/>\n");
     for i in order {
         s.push_str("  ");
         s.push_str(&scn.nodes[*i].xml);
@@ -409,6 +414,7 @@ impl Engine for C10 {
             let id = format!("n{i}");
             if i < n_abs {
                 let (kind, xml) = abs_node(&mut w, &id);
+                let id = if kind == "abs-loop-ids" { format!("{id}q1") } else { id };
                 nodes.push(NodeSpec { id, kind, xml, deps: vec![] });
             } else {
                 // bias towards chains: the most recent node is the likeliest target
@@ -419,6 +425,16 @@ impl Engine for C10 {
                 if two && d2 != d1 {
                     deps.push(d2);
                 }
+                // every 6th relative node has an id computed at evaluation time
+                let (id, kind, xml) = if w.chance(1, 6) && xml.contains(&format!("id=\"{id}\"")) {
+                    (
+                        format!("{id}v7"),
+                        format!("{kind}+computed-id"),
+                        xml.replacen(&format!("id=\"{id}\""), &format!("id=\"{id}v$k\""), 1),
+                    )
+                } else {
+                    (id, kind, xml)
+                };
                 nodes.push(NodeSpec { id, kind, xml, deps });
             }
         }
